@@ -55,6 +55,22 @@ func VerifIssue(t *TBSCertificate, issuer string, sp SignerLambda, sigForm int) 
 	return c.(Certificate), nil
 }
 
+// VerifWithSignature returns a copy of c that carries sig as its signature (nothing else changes; for v2 the raw
+// details bytes are kept). The harness uses it to build the other S form of a P-256 certificate on its own.
+func VerifWithSignature(c Certificate, sig []byte) (Certificate, error) {
+	nc := c.Copy()
+	var err error
+	switch v := nc.(type) {
+	case *certificateV1:
+		err = v.setSignature(sig)
+	case *certificateV2:
+		err = v.setSignature(sig)
+	default:
+		err = ErrUnknownVersion
+	}
+	return nc, err
+}
+
 // VerifCachedInternals exposes the unexported fields of a CachedCertificate.
 func VerifCachedInternals(cc *CachedCertificate) (signerFp, fp2 string) {
 	return cc.signerFingerprint, cc.fingerprint2
